@@ -156,6 +156,21 @@ func runC05(replay string) int {
 					run.Count("feemarket_pass_txs", 1)
 					// one class per (world, relation of the fee fields to the base fee in force, outcome)
 					run.Outcome(fmt.Sprintf("fm[%s] %s -> %s", c.World, c05ShapeClass(t.Spec.Fee, b.BaseFee), t.Class))
+					if c05IsALSection(c) {
+						// one class per (tx type, behaviour, access list, gas limit relative to the reference intrinsic gas, outcome)
+						in, rel := c05RefIntrinsic(t.Spec), "limit>intrinsic"
+						switch {
+						case t.Spec.GasLimit < in:
+							rel = "limit<intrinsic"
+						case t.Spec.GasLimit == in:
+							rel = "limit=intrinsic"
+						}
+						run.Outcome(fmt.Sprintf("fm-al %s %s access-list=%q %s -> %s", t.Spec.Fee.Typ, t.Spec.Kind, t.Spec.AL, rel, t.Class))
+						run.Count("feemarket_pass_access_list_section_txs", 1)
+						if t.Rc != nil && t.Rc.HasReceipt && in > 21_000 && t.Spec.Kind == "transfer" {
+							run.Count("feemarket_pass_plain_transfers_with_nonempty_access_list_committed", 1)
+						}
+					}
 					if t.Class != "not-admitted" && t.Price.Sign() > 0 {
 						nontrivial = true // a positive charge was due
 						if t.Spec.Fee.Typ == "dyn" && b.BaseFee.Sign() == 0 {
@@ -188,16 +203,21 @@ func runC05(replay string) int {
 	for _, s := range c05Shapes(run.Thorough()) {
 		shapeNames = append(shapeNames, s.Name)
 	}
+	var alFeeNames []string
+	for _, s := range c05ALFees(run.Thorough()) {
+		alFeeNames = append(alFeeNames, s.Name)
+	}
 	var worldNames []string
 	for _, w := range c05FmWorlds(run.Thorough()) {
 		worldNames = append(worldNames, fmt.Sprintf("%s(genesis base fee %s, min gas price %s, max gas %d, %d empty block(s) first)", w.World, w.BaseFee, w.MinGas, w.MaxGas, w.Lead))
 	}
 	run.Coverage["rule"] = fmt.Sprintf("refund pass (keeper level, counting tracer): contracts clearing 0..8 pre-set slots and one setting fresh slots x 7 gas limits {3M, consumed, consumed+1, 2x, 5x, 6M, 30M}: reported gas used = consumed - min(4800 x clears, consumed/5) and independent of the limit. "+
 		"ledger pass: single-tx blocks: full product of %d kinds × %d fee shapes (multiples of the base fee) × 4 gas limits {used, used+1, 2×used, 6M} × MaxGas∈{40M,100k}; two-tx blocks: (kind × fee/gas combo)² × {same, different sender} × both worlds; two-block histories after 2 fixed first blocks%s. "+
-		"fee-market pass: fee fields = B×baseFee+Abs; worlds %v; behaviours %v; fee shapes %v; (1) single-tx blocks: full product world × behaviour × shape × gas limits {used, 1M%s} (out-of-gas: {30000, 45000}); (2) four-sender blocks, wallet i using shape j+5i, for every world × behaviour × j; (3) two txs of one sender in a block: all ordered shape pairs × %d behaviour pair(s) × %s; (4) two-block histories in 100k-gas worlds with genesis base fee 0 and 1 gwei after a more-than-half-full first block (base fee moved), and the same two txs in one block (block gas exhaustion), every behaviour × shape. "+
+		"fee-market pass: fee fields = B×baseFee+Abs; worlds %v; behaviours %v; fee shapes %v; (1) single-tx blocks: full product world × behaviour × shape × gas limits {used, 1M%s} (out-of-gas: {30000, 45000}); (2) four-sender blocks, wallet i using shape j+5i, for every world × behaviour × j; (3) two txs of one sender in a block: all ordered shape pairs × %d behaviour pair(s) × %s; (4) two-block histories in 100k-gas worlds with genesis base fee 0 and 1 gwei after a more-than-half-full first block (base fee moved), and the same two txs in one block (block gas exhaustion), every behaviour × shape; (5) access-list dimension, single-tx blocks: full product world × behaviours %v × fee shapes %v × access lists %q × gas limits {I, I-1, I+1, 1M}, I = reference intrinsic gas = 21000 (53000 creation) + 16/4 per non-zero/zero data byte + 2400 per listed address + 1900 per listed storage key computed from the case's fields (no EIP-3860 in the linked go-ethereum v1.10.26); (6) four-sender blocks, wallet i using access list j+2i, fee shape i, gas limit option i+j, for every world × behaviour × j. "+
 		"distinct_nontrivial = distinct histories in which an unused-gas refund was due, a tx failed after admission, or (fee-market pass) a positive charge was due",
 		len(ledgerKinds), len(ledgerFees), map[bool]string{false: "", true: "; three-tx blocks with a Cosmos tx in the middle"}[run.Thorough()],
 		worldNames, kinds, shapeNames, map[bool]string{false: "", true: ", used+1, 2×used, 6M"}[run.Thorough()],
-		map[bool]int{false: 1, true: 3}[run.Thorough()], map[bool]string{false: "the first 2 worlds", true: "every world"}[run.Thorough()])
+		map[bool]int{false: 1, true: 3}[run.Thorough()], map[bool]string{false: "the first 2 worlds", true: "every world"}[run.Thorough()],
+		c05ALKinds, alFeeNames, c05ALNames(run.Thorough()))
 	return run.Finish()
 }
